@@ -15,14 +15,14 @@ use serde_json::{json, Value};
 use std::cell::Cell;
 use std::collections::BTreeMap;
 use std::io::{BufRead, BufReader, Write};
-use std::sync::atomic::{AtomicUsize, Ordering::SeqCst};
+use std::sync::atomic::{AtomicU64, AtomicUsize, Ordering::SeqCst};
 use std::sync::{Arc, Condvar, Mutex};
 use std::time::{Duration, Instant};
 
 #[derive(Clone, Copy, Debug, PartialEq)]
 enum Status { NotStarted, AtYield, Running, Parked, Waking, Exited }
 #[derive(Clone, Debug, PartialEq)]
-pub struct Choice { pub enabled: Vec<usize>, pub idx: usize, pub prev_enabled: bool }
+pub struct Choice { pub enabled: Vec<usize>, pub idx: usize, pub prev_enabled: bool, pub state: u128 }
 #[derive(Clone, Copy, Debug, PartialEq)]
 enum Phase { Idle, AfterGw(usize), Busy }
 
@@ -53,18 +53,31 @@ struct Core {
     cs_hash: u64,
     /// notify_one calls whose woken thread has not announced itself yet (no decision is taken meanwhile)
     pending_wakeups: usize,
+    /// per worker: hash chain of its scheduling points and of everything it has READ from shared state so far
+    /// (its local state -- diagram object, position in the code -- is a deterministic function of that history)
+    chain: Vec<u64>,
 }
-pub struct Exec { m: Mutex<Core>, cv: Condvar, fringe_len: AtomicUsize, cut_fired: AtomicUsize }
+pub struct Exec { m: Mutex<Core>, cv: Condvar, fringe_len: AtomicUsize, cut_fired: AtomicUsize,
+    /// fingerprints of the shared state (only one worker runs at a time, so plain stores are enough)
+    pub crit_fp: AtomicU64, pub fringe_fp: AtomicU64, pub cache_fp: AtomicU64, pub dom_fp: AtomicU64, pub polls_fp: AtomicU64 }
+
+#[inline] pub fn mix(a: u64, b: u64) -> u64 { let mut z = (a ^ b.wrapping_mul(0x9E3779B97F4A7C15)).wrapping_add(0x9E3779B97F4A7C15); z = (z ^ (z >> 30)).wrapping_mul(0xBF58476D1CE4E5B9); z = (z ^ (z >> 27)).wrapping_mul(0x94D049BB133111EB); z ^ (z >> 31) }
+pub fn hash_of<T: std::hash::Hash>(t: &T) -> u64 { use std::hash::Hasher; let mut h = std::collections::hash_map::DefaultHasher::new(); t.hash(&mut h); h.finish() }
+/// the calling worker has read `x` from shared state (outside of what its position in the code implies)
+pub fn note_read(x: u64) { CHAIN.with(|c| c.set(mix(c.get(), x))); }
+pub fn in_worker() -> bool { WID.with(|w| w.get()).is_some() }
+pub fn in_critical_section() -> bool { INCS.with(|f| f.get()) }
 
 thread_local! {
     static WID: Cell<Option<usize>> = Cell::new(None);
     static INCS: Cell<bool> = Cell::new(false);
+    static CHAIN: Cell<u64> = Cell::new(0);
     /// the named portion of code (section hook) the thread is in: names the next lock acquisition
     static CURSITE: Cell<Option<Site>> = Cell::new(None);
     /// the execution this worker thread belongs to (a thread of an abandoned execution must never touch a later one)
     static MYEX: std::cell::RefCell<Option<Arc<Exec>>> = std::cell::RefCell::new(None);
 }
-fn myex() -> Option<Arc<Exec>> { MYEX.with(|m| m.borrow().clone()) }
+pub fn myex() -> Option<Arc<Exec>> { MYEX.with(|m| m.borrow().clone()) }
 static CUR: Mutex<Option<Arc<Exec>>> = Mutex::new(None);
 fn cur() -> Option<Arc<Exec>> { CUR.lock().unwrap().clone() }
 
@@ -94,7 +107,18 @@ impl Exec {
             i
         } else { 0 };
         let chosen = enabled[idx];
-        c.trace.push(Choice { enabled, idx, prev_enabled });
+        // fingerprint of the global state at this decision point: shared data + per worker (status, pending site, history of reads)
+        let state = {
+            let sh = [self.crit_fp.load(SeqCst), self.fringe_fp.load(SeqCst), self.cache_fp.load(SeqCst), self.dom_fp.load(SeqCst), self.polls_fp.load(SeqCst), self.cut_fired.load(SeqCst) as u64];
+            let (mut a, mut b) = (0x243F6A8885A308D3u64, 0x13198A2E03707344u64);
+            for x in sh { a = mix(a, x); b = mix(b ^ 0xA4093822299F31D0, x.rotate_left(17)); }
+            for i in 0..c.n {
+                let w = [c.status[i] as u64, c.last_site[i].map_or(99, |s| s as u64), c.chain[i]];
+                for x in w { a = mix(a, x); b = mix(b ^ 0x082EFA98EC4E6C89, x.rotate_left(29)); }
+            }
+            ((a as u128) << 64) | b as u128
+        };
+        c.trace.push(Choice { enabled, idx, prev_enabled, state });
         c.steps += 1;
         c.current = Some(chosen);
         c.prev = Some(chosen);
@@ -107,6 +131,7 @@ impl Exec {
         if c.status[i] == Status::Parked && c.pending_wakeups > 0 { c.pending_wakeups -= 1; }
         c.starved[i] = site == Some(Site::GetWorkload) && c.last_site[i] == Some(Site::GetWorkload);
         c.last_site[i] = site;
+        c.chain[i] = CHAIN.with(|ch| { let v = mix(ch.get(), 1000 + site.map_or(99, |s| s as u64)); ch.set(v); v });
         c.status[i] = Status::AtYield;
         if c.current == Some(i) { c.current = None; }
         self.dispatch(&mut c);
@@ -118,6 +143,7 @@ fn hook(e: Event) {
     if let Event::WorkerStart(i) = e {
         let ex = match cur() { Some(x) => x, None => return };
         WID.with(|w| w.set(Some(i)));
+        CHAIN.with(|c| c.set(i as u64 + 1));
         MYEX.with(|m| *m.borrow_mut() = Some(ex.clone()));
         ex.yield_here(i, None);
         return;
@@ -173,6 +199,11 @@ fn hook(e: Event) {
             }
         }
         Event::Unlock => { INCS.with(|f| f.set(false)); }
+        Event::Snapshot { fp, best_lb } => {
+            ex.crit_fp.store(fp, SeqCst);
+            // the only value of the critical data which flows into the worker's local state (besides the node it pops)
+            if CURSITE.with(|c| c.get()) == Some(Site::BestLb) { note_read(best_lb as u64); }
+        }
         Event::Released(site) => {
             CURSITE.with(|c| c.set(None));
             if let Some(i) = WID.with(|w| w.get()) {
@@ -215,19 +246,37 @@ pub fn cutoff_yield(armed: bool) {
     if let Some(i) = WID.with(|w| w.get()) { if let Some(ex) = myex() { ex.yield_here(i, None); } }
 }
 
-/// Fringe wrapper: tells the monitors how many sub-problems are open
-struct WFringe<'a> { inner: &'a mut (dyn Fringe<State = St> + Send + Sync), ex: Arc<Exec> }
-impl Fringe for WFringe<'_> {
+/// Fringe wrapper: tells the monitors how many sub-problems are open, publishes the fingerprint of the REAL container
+/// (internal layout included: it decides the pop order among ties) and adds what a worker pops to its history
+pub trait FpFringe: Fringe<State = St> { fn fp(&self) -> u64; }
+impl<O: SubProblemRanking<State = St>> FpFringe for SimpleFringe<O> { fn fp(&self) -> u64 { hash_of(&self.verif_fingerprint()) } }
+impl<O: SubProblemRanking<State = St>> FpFringe for NoDupFringe<O> { fn fp(&self) -> u64 { hash_of(&self.verif_fingerprint()) } }
+struct WFringe<'a, F: FpFringe> { inner: &'a mut F, ex: Arc<Exec> }
+impl<F: FpFringe> WFringe<'_, F> {
+    fn publish(&self) { self.ex.fringe_len.store(self.inner.len(), SeqCst); self.ex.fringe_fp.store(self.inner.fp(), SeqCst); }
+}
+fn node_hash(n: &SubProblem<St>) -> u64 {
+    let mut h = mix(hash_of(&*n.state), n.depth as u64);
+    h = mix(h, n.value as u64); h = mix(h, n.ub as u64);
+    for d in n.path.iter() { h = mix(h, d.variable.0 as u64); h = mix(h, d.value as u64); }
+    h
+}
+impl<F: FpFringe> Fringe for WFringe<'_, F> {
     type State = St;
-    fn push(&mut self, node: SubProblem<St>) { self.inner.push(node); self.ex.fringe_len.store(self.inner.len(), SeqCst); }
-    fn pop(&mut self) -> Option<SubProblem<St>> { let r = self.inner.pop(); self.ex.fringe_len.store(self.inner.len(), SeqCst); r }
-    fn clear(&mut self) { self.inner.clear(); self.ex.fringe_len.store(0, SeqCst); }
+    fn push(&mut self, node: SubProblem<St>) { self.inner.push(node); self.publish(); }
+    fn pop(&mut self) -> Option<SubProblem<St>> { let r = self.inner.pop(); self.publish(); if in_worker() { note_read(r.as_ref().map_or(7, node_hash)); } r }
+    fn clear(&mut self) { self.inner.clear(); self.publish(); }
     fn len(&self) -> usize { self.inner.len() }
 }
 
 struct CutW { inner: KCut, ex: Arc<Exec> }
 impl Cutoff for CutW {
-    fn must_stop(&self) -> bool { let r = self.inner.must_stop(); if r { self.ex.cut_fired.store(1, SeqCst); } r }
+    fn must_stop(&self) -> bool {
+        let r = self.inner.must_stop();
+        if r { self.ex.cut_fired.store(1, SeqCst); }
+        if self.inner.fire_at != usize::MAX { self.ex.polls_fp.store(self.inner.polls.load(SeqCst) as u64, SeqCst); if in_worker() { note_read(r as u64 + 11); } }
+        r
+    }
 }
 
 #[derive(Clone, Debug)]
@@ -242,14 +291,19 @@ pub struct Unit {
     pub cut: CutMode,
     pub bound: usize,
     pub primal: bool,
+    /// ALL interleavings (no pre-emption bound): explicit-state search with state matching (`bound` is ignored)
+    pub all: bool,
 }
 #[derive(Clone, Copy, Debug, PartialEq)]
 pub enum CutMode { None, EveryPoll }
 impl Unit {
-    fn json(&self) -> Value { json!({"family": self.fam, "idx": self.idx, "variant": self.var.json(), "cfg": self.cfg.json(), "construct_threads": self.construct, "run_threads": self.run, "cut": format!("{:?}", self.cut), "bound": self.bound, "primal": self.primal}) }
+    fn json(&self) -> Value { let mut v = json!({"family": self.fam, "idx": self.idx, "variant": self.var.json(), "cfg": self.cfg.json(), "construct_threads": self.construct, "run_threads": self.run, "cut": format!("{:?}", self.cut), "bound": self.bound, "primal": self.primal});
+        // (only present when set: the JSON of the bounded units is part of the case keys of the known-finding lists)
+        if self.all { v["all"] = json!(true); }
+        v }
     fn from_json(v: &Value) -> Unit {
         Unit { fam: v["family"].as_str().unwrap().to_string(), idx: v["idx"].as_u64().unwrap(), var: Variant::from_json(&v["variant"]), cfg: Cfg::from_json(&v["cfg"]), construct: v["construct_threads"].as_u64().unwrap() as usize,
-               run: v["run_threads"].as_u64().unwrap() as usize, cut: if v["cut"].as_str() == Some("EveryPoll") { CutMode::EveryPoll } else { CutMode::None }, bound: v["bound"].as_u64().unwrap() as usize, primal: v["primal"].as_bool().unwrap_or(false) }
+               run: v["run_threads"].as_u64().unwrap() as usize, cut: if v["cut"].as_str() == Some("EveryPoll") { CutMode::EveryPoll } else { CutMode::None }, bound: v["bound"].as_u64().unwrap() as usize, primal: v["primal"].as_bool().unwrap_or(false), all: v["all"].as_bool().unwrap_or(false) }
     }
 }
 
@@ -293,10 +347,11 @@ where D: DecisionDiagram<State = St> + Default, C: Cache<State = St> + Default +
     let cut = CutW { inner: KCut::new(fire_at, fuel_for(m)), ex: ex.clone() };
     let mut simple = SimpleFringe::new(MaxUB::new(&rank));
     let mut nodup = NoDupFringe::new(MaxUB::new(&rank));
-    let inner: &mut (dyn Fringe<State = St> + Send + Sync) = if u.cfg.nodup { &mut nodup } else { &mut simple };
-    let mut wf = WFringe { inner, ex };
+    let mut wf_s = WFringe { inner: &mut simple, ex: ex.clone() };
+    let mut wf_n = WFringe { inner: &mut nodup, ex };
+    let wf: &mut (dyn Fringe<State = St> + Send + Sync) = if u.cfg.nodup { &mut wf_n } else { &mut wf_s };
     let mut out = Out::default();
-    let mut solver = ParallelSolver::<St, D, C>::custom(&rec, &rec, &rec, &width, &dom, &cut, &mut wf, u.construct);
+    let mut solver = ParallelSolver::<St, D, C>::custom(&rec, &rec, &rec, &width, &dom, &cut, wf, u.construct);
     if u.construct != u.run { solver = solver.with_nb_threads(u.run); }
     if let Some((v, s)) = primal { solver.set_primal(*v, s.clone()); }
     let r = std::panic::catch_unwind(std::panic::AssertUnwindSafe(|| solver.maximize()));
@@ -323,8 +378,9 @@ pub fn run_once(m: Arc<dyn Model>, u: &Unit, fire_at: usize, primal: &Option<(is
     let n = u.run;
     let ex = Arc::new(Exec {
         m: Mutex::new(Core { n, status: vec![Status::NotStarted; n], current: None, prev: None, prefix, trace: vec![], deadlock: false, livelock: false, abandoned: false, done: false, crashed: vec![], steps: 0, max_steps,
-                             last_site: vec![None; n], starved: vec![false; n], diverged: None, time: 0, phase: vec![Phase::Idle; n], nodes_by_worker: vec![0; n], exits: vec![], premature: None, aborting: false, cs_hash: 0xcbf29ce484222325, pending_wakeups: 0 }),
+                             last_site: vec![None; n], starved: vec![false; n], diverged: None, time: 0, phase: vec![Phase::Idle; n], nodes_by_worker: vec![0; n], exits: vec![], premature: None, aborting: false, cs_hash: 0xcbf29ce484222325, pending_wakeups: 0, chain: vec![0; n] }),
         cv: Condvar::new(), fringe_len: AtomicUsize::new(0), cut_fired: AtomicUsize::new(0),
+        crit_fp: AtomicU64::new(0), fringe_fp: AtomicU64::new(0), cache_fp: AtomicU64::new(0), dom_fp: AtomicU64::new(0), polls_fp: AtomicU64::new(0),
     });
     *CUR.lock().unwrap() = Some(ex.clone());
     let result: Arc<Mutex<Option<Out>>> = Arc::new(Mutex::new(None));
@@ -441,6 +497,10 @@ pub struct UStats {
     pub machinery: Vec<String>,
     pub capped: bool,
     pub leaked: u64,
+    /// explicit-state mode: distinct global states, transitions executed, executions stopped at an already visited state
+    pub states: u64,
+    pub transitions: u64,
+    pub max_depth: u64,
 }
 
 /// Explores all schedules of a unit with at most `bound` pre-emptions (iterative context bounding: 0, 1, .., bound)
@@ -542,6 +602,93 @@ pub fn explore_unit(u: &Unit, exec_cap: u64, deadline: Instant) -> UStats {
     st
 }
 
+/// Explores ALL interleavings of a unit (no pre-emption bound) by explicit-state search: a state is the fingerprint taken
+/// at a decision point (shared data of the solver, fringe, cache and dominance stores, cut-off polls; per worker its
+/// status, pending acquisition and the history of everything it has read from shared state).  A state reached a second
+/// time is not expanded again: every successor of it is (or will be) reached from its first visit.  States are still
+/// reached by re-executing the real solver from its initial state (it cannot be snapshotted).
+/// `reverse`: push the alternatives in the opposite order (used to cross-check the state matching: the number of
+/// distinct states and the set of outcomes must not depend on the order of the search).
+pub fn explore_unit_all(u: &Unit, exec_cap: u64, deadline: Instant, reverse: bool) -> UStats {
+    let fam = family(&u.fam);
+    let m: Arc<dyn Model> = Arc::from(fam.build(u.idx, u.var));
+    let primal: Option<(isize, Vec<Decision>)> = if u.primal { let a = m.achievable(); if a.is_empty() { None } else { Some(a[a.len() / 2].clone()) } } else { None };
+    let mut st = UStats::default();
+    st.completed_bound = -1;
+    let mut outcomes: std::collections::HashSet<(Option<isize>, usize, isize, isize, bool)> = Default::default();
+    let mut cs: std::collections::HashSet<u64> = Default::default();
+    let base = run_once(m.clone(), u, usize::MAX, &primal, vec![], 20_000);
+    let max_steps = if base.completed { base.steps * 50 + 2000 } else { 20_000 };
+    if !base.completed || base.out.fuel_out {
+        if !base.completed { st.leaked += 1; }
+        st.executions = 1; st.steps = base.steps as u64; st.blocked = 1; st.decision_nodes = base.trace.len() as u64;
+        for x in judge_exec(m.as_ref(), u, usize::MAX, primal.as_ref().map(|p| p.0), &base) {
+            st.violations.push((x.prop.to_string(), x.sig, x.what, json!({"engine": "sched", "unit": u.json(), "fire_at": null, "schedule": base.trace.iter().map(|c| c.idx).collect::<Vec<_>>(), "model": m.describe(), "outcome": base.out.json(), "deadlock": base.deadlock, "crashed": base.crashed, "preemptions": 0})));
+        }
+        st.completed_bound = u.bound as i64; st.distinct_cs_traces = 1; st.distinct_outcomes = 1;
+        return st;
+    }
+    let fires: Vec<usize> = match u.cut { CutMode::None => vec![usize::MAX], CutMode::EveryPoll => (1..=base.out.polls + 1).collect() };
+    st.cut_indices = if u.cut == CutMode::EveryPoll { fires.len() as u64 } else { 0 };
+    let mut sigs_seen: std::collections::HashSet<String> = Default::default();
+    'fires: for fire_at in fires.iter().copied() {
+        let mut visited: std::collections::HashSet<u128> = Default::default();
+        let mut stack: Vec<Vec<u8>> = vec![vec![]];
+        while let Some(prefix) = stack.pop() {
+            if Instant::now() > deadline || st.executions >= exec_cap || st.leaked >= 50 { st.capped = true; break 'fires; }
+            let plen = prefix.len();
+            let e = run_once(m.clone(), u, fire_at, &primal, prefix.iter().map(|x| *x as usize).collect(), max_steps);
+            if let Some(d) = &e.diverged { st.machinery.push(format!("{} in unit {}", d, u.json())); st.capped = true; break 'fires; }
+            if !e.completed { st.leaked += 1; }
+            st.executions += 1;
+            st.steps += e.steps as u64;
+            st.max_depth = st.max_depth.max(e.trace.len() as u64);
+            cs.insert(e.cs_hash);
+            outcomes.insert((e.out.best_value, e.out.explored, e.out.lb, e.out.ub, e.out.is_exact));
+            if e.workers_with_nodes >= 2 { st.concurrent_execs += 1; }
+            if e.cut_fired { st.cut_fired_execs += 1; }
+            if !e.completed { st.blocked += 1; }
+            let mut pre = 0usize;
+            for ch in e.trace.iter() { if ch.prev_enabled && ch.idx != 0 { pre += 1; } }
+            for x in judge_exec(m.as_ref(), u, fire_at, primal.as_ref().map(|p| p.0), &e) {
+                let key = format!("{}:{}", x.prop, x.sig);
+                if sigs_seen.insert(key) {
+                    let sched: Vec<usize> = e.trace.iter().map(|c| c.idx).collect();
+                    let r1 = run_once(m.clone(), u, fire_at, &primal, sched.clone(), max_steps);
+                    let r2 = run_once(m.clone(), u, fire_at, &primal, sched.clone(), max_steps);
+                    if !r1.completed { st.leaked += 1; }
+                    if !r2.completed { st.leaked += 1; }
+                    if r1.trace != e.trace || r2.trace != e.trace || r1.diverged.is_some() || r2.diverged.is_some() || r1.cs_hash != e.cs_hash || r2.cs_hash != e.cs_hash {
+                        st.machinery.push(format!("replay of a violating schedule is not deterministic ({}:{}) unit {} schedule {:?}", x.prop, x.sig, u.json(), sched));
+                    } else {
+                        st.violations.push((x.prop.to_string(), x.sig, x.what, json!({"engine": "sched", "unit": u.json(), "fire_at": if fire_at == usize::MAX { json!(null) } else { json!(fire_at) }, "schedule": sched,
+                            "model": m.describe(), "outcome": e.out.json(), "deadlock": e.deadlock, "crashed": e.crashed, "preemptions": pre})));
+                    }
+                }
+            }
+            // the decisions of the prefix were taken in states visited by the parent execution; the first fresh one is
+            // the decision number plen
+            for i in plen..e.trace.len() {
+                let ch = &e.trace[i];
+                st.transitions += 1;
+                if !visited.insert(ch.state) { break; }
+                st.states += 1;
+                let alts: Vec<usize> = if reverse { (1..ch.enabled.len()).rev().collect() } else { (1..ch.enabled.len()).collect() };
+                for alt in alts {
+                    let mut p: Vec<u8> = e.trace[..i].iter().map(|c| c.idx as u8).collect();
+                    p.push(alt as u8);
+                    stack.push(p);
+                }
+            }
+        }
+    }
+    if !st.capped { st.completed_bound = u.bound as i64; }
+    st.decision_nodes = st.states;
+    st.distinct_cs_traces = cs.len() as u64;
+    st.distinct_outcomes = outcomes.len() as u64;
+    st
+}
+
 // ------------------------------------------------------------------------------------------------------------
 // worker processes
 // ------------------------------------------------------------------------------------------------------------
@@ -568,10 +715,10 @@ pub fn worker_main(args: &[String]) -> i32 {
         if pos % n != stripe || pos < start_from { continue; }
         let u = Unit::from_json(uv);
         let t0 = Instant::now();
-        let st = if Instant::now() > deadline { let mut s = UStats::default(); s.capped = true; s.completed_bound = -1; s } else { explore_unit(&u, exec_cap, deadline) };
+        let st = if Instant::now() > deadline { let mut s = UStats::default(); s.capped = true; s.completed_bound = -1; s } else if u.all { explore_unit_all(&u, exec_cap, deadline, false) } else { explore_unit(&u, exec_cap, deadline) };
         leaked += st.leaked;
         let line = json!({"pos": pos, "executions": st.executions, "decision_nodes": st.decision_nodes, "steps": st.steps, "distinct_cs_traces": st.distinct_cs_traces, "distinct_outcomes": st.distinct_outcomes,
-            "concurrent_execs": st.concurrent_execs, "blocked": st.blocked, "cut_fired_execs": st.cut_fired_execs, "cut_indices": st.cut_indices, "completed_bound": st.completed_bound, "capped": st.capped, "leaked": st.leaked,
+            "concurrent_execs": st.concurrent_execs, "blocked": st.blocked, "cut_fired_execs": st.cut_fired_execs, "cut_indices": st.cut_indices, "completed_bound": st.completed_bound, "capped": st.capped, "leaked": st.leaked, "states": st.states, "transitions": st.transitions, "max_depth": st.max_depth,
             "violations": st.violations.iter().map(|(p, s, w, r)| json!({"prop": p, "sig": s, "what": w, "replay": r})).collect::<Vec<_>>(), "machinery": st.machinery, "wall_s": t0.elapsed().as_secs_f64()});
         let mut lock = stdout.lock();
         let _ = writeln!(lock, "{}", line);
@@ -592,7 +739,7 @@ pub fn explore_units(rep: &Reporter, focus: &[&str], units: &[Unit], budget_s: f
     let exec_cap = if std::env::var("VERIF_KNOWN_GEN").is_ok() { exec_cap.min(2000) } else if cap_secs(1) > 1 { u64::MAX / 4 } else { exec_cap };
     // cheap units first (the stripes visit their units in list order), so that a wall clock cap hits the deepest bounds only
     let mut sorted: Vec<Unit> = units.to_vec();
-    sorted.sort_by_key(|u| (u.bound + if u.cut == CutMode::EveryPoll { 1 } else { 0 }, u.run));
+    sorted.sort_by_key(|u| (u.all, u.bound + if u.cut == CutMode::EveryPoll { 1 } else { 0 }, u.run));
     let units: &[Unit] = &sorted;
     let dir = format!("{}/sched", std::env::var("VERIF_BUILD").unwrap_or_else(|_| format!("{}/.build", verif_dir())));
     let _ = std::fs::create_dir_all(&dir);
@@ -633,7 +780,7 @@ pub fn explore_units(rep: &Reporter, focus: &[&str], units: &[Unit], budget_s: f
     let mut agg: BTreeMap<&str, u64> = BTreeMap::new();
     let mut complete = true;
     let mut done_units = 0u64;
-    let mut by_class: BTreeMap<String, (u64, u64, i64)> = BTreeMap::new();
+    let mut by_class: BTreeMap<String, (u64, u64, i64, u64, u64)> = BTreeMap::new();
     let mut samples = vec![];
     for (pos, r) in results.iter().enumerate() {
         let u = &units[pos];
@@ -641,11 +788,13 @@ pub fn explore_units(rep: &Reporter, focus: &[&str], units: &[Unit], budget_s: f
             None => { complete = false; }
             Some(v) => {
                 done_units += 1;
-                for k in ["executions", "decision_nodes", "steps", "distinct_cs_traces", "distinct_outcomes", "concurrent_execs", "blocked", "cut_fired_execs", "cut_indices", "leaked"] { *agg.entry(k).or_insert(0) += v[k].as_u64().unwrap_or(0); }
+                for k in ["executions", "decision_nodes", "steps", "distinct_cs_traces", "distinct_outcomes", "concurrent_execs", "blocked", "cut_fired_execs", "cut_indices", "leaked", "states", "transitions"] { *agg.entry(k).or_insert(0) += v[k].as_u64().unwrap_or(0); }
                 if v["capped"].as_bool().unwrap_or(false) || v["completed_bound"].as_i64().unwrap_or(-1) < u.bound as i64 { complete = false; }
-                let cls = format!("{} workers (constructed for {}), cut={:?}, bound {}", u.run, u.construct, u.cut, u.bound);
-                let e = by_class.entry(cls).or_insert((0, 0, i64::MAX));
+                let cls = if u.all { format!("{} workers (constructed for {}), cut={:?}, ALL interleavings (explicit-state search with state matching, no pre-emption bound)", u.run, u.construct, u.cut) }
+                          else { format!("{} workers (constructed for {}), cut={:?}, bound {}", u.run, u.construct, u.cut, u.bound) };
+                let e = by_class.entry(cls).or_insert((0, 0, i64::MAX, 0, 0));
                 e.0 += 1; e.1 += v["executions"].as_u64().unwrap_or(0); e.2 = e.2.min(v["completed_bound"].as_i64().unwrap_or(-1));
+                if !v["capped"].as_bool().unwrap_or(false) && v["completed_bound"].as_i64().unwrap_or(-1) >= 0 { e.3 += 1; if u.all { e.4 += v["states"].as_u64().unwrap_or(0); } }
                 for x in v["violations"].as_array().unwrap() {
                     let prop = x["prop"].as_str().unwrap();
                     if focus.contains(&prop) { rep.violation(x["sig"].as_str().unwrap().to_string(), x["what"].as_str().unwrap().to_string(), x["replay"].clone()); }
@@ -661,7 +810,8 @@ pub fn explore_units(rep: &Reporter, focus: &[&str], units: &[Unit], budget_s: f
         "units": units.len(), "units_done": done_units, "executions": g("executions"), "states": g("decision_nodes"), "transitions": g("steps"), "traces_validated_against_impl": g("executions"),
         "distinct_critical_section_traces": g("distinct_cs_traces"), "distinct_outcomes_summed_over_units": g("distinct_outcomes"), "executions_with_2+_workers_processing_nodes": g("concurrent_execs"),
         "executions_blocked_by_another_monitor": g("blocked"), "executions_in_which_the_cutoff_fired": g("cut_fired_execs"), "cutoff_indices_enumerated": g("cut_indices"), "abandoned_executions": g("leaked"),
-        "by_class": by_class.iter().map(|(k, v)| json!({"class": k, "units": v.0, "executions": v.1, "min_completed_preemption_bound": v.2})).collect::<Vec<_>>(),
+        "by_class": by_class.iter().map(|(k, v)| json!({"class": k, "units": v.0, "executions": v.1, "min_completed_preemption_bound": v.2, "units_explored_completely": v.3, "distinct_states_of_the_completely_explored_units": v.4})).collect::<Vec<_>>(),
+        "explicit_state_units": units.iter().filter(|u| u.all).count(), "explicit_state_distinct_states": g("states"), "explicit_state_transitions": g("transitions"),
         "exhaustive_within_bounds": complete, "samples": samples, "wall_s": t0.elapsed().as_secs_f64(),
         "explanation": "stateless exploration (iterative context bounding) of the real ParallelSolver under a controlled scheduler: states = decision nodes of the schedule tree, transitions = scheduling steps, every execution is a run of the implementation",
     });
@@ -712,6 +862,68 @@ fn instance_list(th: bool) -> Vec<(String, u64, Variant)> {
 
 fn cfgs12(width: usize) -> Vec<Cfg> { Cfg::full(&[width]) }
 
+/// instances for the explicit-state search (ALL interleavings): the interesting instances with the FEWEST sub-problems
+/// (>= 3, so that two workers really process nodes concurrently), `m` per family
+pub fn interesting_small(fam_name: &str, var: Variant, m: usize, stride: u64, min_nodes: usize) -> Vec<(String, u64, Variant)> {
+    let fam = family(fam_name);
+    let mut cands: Vec<(usize, u64)> = vec![];
+    let mut idx = 0u64;
+    let mut seen = 0;
+    while seen < 60 && idx < fam.count() {
+        let md = fam.build(idx, var);
+        let o = run_seq(md.as_ref(), &RunSpec::plain(Cfg { dd: DdKind::Lel, cache: false, nodup: false, width: 1 }));
+        if o.explored >= min_nodes && o.panicked.is_none() && !o.fuel_out { cands.push((o.explored, idx)); }
+        idx += stride;
+        seen += 1;
+    }
+    cands.sort();
+    cands.into_iter().take(m).map(|(_, i)| (fam_name.to_string(), i, var)).collect()
+}
+fn instance_list_small(th: bool) -> Vec<(String, u64, Variant)> {
+    let base = Variant::BASE;
+    let k = if th { 3 } else { 1 };
+    let mn = if th { 4 } else { 3 };
+    let mut v = vec![];
+    v.extend(interesting_small("TM-B4", base, k, 97, mn));
+    v.extend(interesting_small("TM-B4", Variant { flat: true, ..base }, k, 193, mn));
+    v.extend(interesting_small("TM-N0.1", base, k, 7, mn));
+    v.extend(interesting_small("TM-N1.1", Variant { rub: Rub::Exact, ..base }, k, 11, mn));
+    v.extend(interesting_small("TM-N2.1", Variant { dom: Dom::Exact, ..base }, k, 13, mn));
+    v.extend(interesting_small("SP-4", Variant { flat: true, la: false, ..base }, k, 211, mn));
+    v.extend(interesting_small("KP-3", Variant { rub: Rub::Exact, ..base }, k, 173, mn));
+    v.extend(interesting_small("KP-3", Variant { dom: Dom::Coord, ..base }, k, 389, mn));
+    v
+}
+/// units of the explicit-state search: 2 workers (thorough: also 3 workers and a wider diagram), every diagram x cache x fringe
+fn units_all(th: bool, cut: CutMode, primal: bool) -> Vec<Unit> {
+    let mut v = vec![];
+    for (fam, idx, var) in instance_list_small(th) {
+        for cfg in cfgs12(1) {
+            v.push(Unit { fam: fam.clone(), idx, var, cfg, construct: 2, run: 2, cut, bound: 99, primal, all: true });
+        }
+    }
+    if th {
+        for (fam, idx, var) in instance_list_small(false) {
+            for cfg in [Cfg { dd: DdKind::Lel, cache: false, nodup: false, width: 1 }, Cfg { dd: DdKind::Fc, cache: true, nodup: true, width: 1 }, Cfg { dd: DdKind::Pooled, cache: true, nodup: false, width: 1 }] {
+                v.push(Unit { fam: fam.clone(), idx, var, cfg, construct: 3, run: 3, cut, bound: 99, primal, all: true });
+                if cut == CutMode::None { v.push(Unit { fam: fam.clone(), idx, var, cfg, construct: 1, run: 2, cut, bound: 99, primal, all: true }); v.push(Unit { fam: fam.clone(), idx, var, cfg, construct: 3, run: 2, cut, bound: 99, primal, all: true }); }
+            }
+        }
+    }
+    v
+}
+/// the explicit-state part of a check: ALL interleavings of the listed units
+pub fn all_part(rep: &Reporter, focus: &str, cut: CutMode, primal: bool, cache_only: bool, quick_s: f64, thorough_s: f64) -> (Value, bool, u64, u64) {
+    let th = rep.thorough();
+    let mut units = units_all(th, cut, primal);
+    if cache_only { units.retain(|u| u.cfg.cache); }
+    let c = explore_units(rep, &[focus], &units, if th { thorough_s } else { quick_s }, u64::MAX / 4);
+    let mut cov = c.cov;
+    cov["scope"] = unit_scope(&units);
+    cov["explanation"] = json!("explicit-state search over ALL interleavings (no pre-emption bound) of the real ParallelSolver: a state is the fingerprint, taken at every scheduling decision, of the solver's critical data (hook), the real fringe, the real cache content, the history of the dominance store per key, the cut-off poll counter, and per worker its status, pending acquisition and the history of everything it has read from shared state (its local state is a deterministic function of that history); a state met again is not expanded again; states are reached by re-executing the solver from its initial state; 'states' = distinct states, 'transitions' = scheduling steps executed from fresh decisions; a unit which hit the wall clock cap is reported as not exhaustive");
+    (cov, c.complete, c.executions, c.concurrent)
+}
+
 fn units_c03(th: bool) -> Vec<Unit> {
     let mut v = vec![];
     for (fam, idx, var) in instance_list(th) {
@@ -719,7 +931,7 @@ fn units_c03(th: bool) -> Vec<Unit> {
             for cfg in cfgs12(w) {
                 let mut tb = vec![(1usize, 0usize), (2, 2), (3, 1)];
                 if th { tb = vec![(1, 0), (2, 3), (3, 2), (4, 1)]; }
-                for (t, b) in tb { v.push(Unit { fam: fam.clone(), idx, var, cfg, construct: t, run: t, cut: CutMode::None, bound: b, primal: false }); }
+                for (t, b) in tb { v.push(Unit { fam: fam.clone(), idx, var, cfg, construct: t, run: t, cut: CutMode::None, bound: b, primal: false, all: false }); }
             }
         }
     }
@@ -732,8 +944,8 @@ fn units_c04(th: bool) -> Vec<Unit> {
     for (fam, idx, var) in insts.iter().take(if th { 12 } else { 4 }) {
         for cfg in [Cfg { dd: DdKind::Lel, cache: false, nodup: false, width: 1 }, Cfg { dd: DdKind::Fc, cache: true, nodup: true, width: 1 }, Cfg { dd: DdKind::Pooled, cache: true, nodup: false, width: 1 }] {
             let maxc = if th { 4 } else { 3 };
-            for c in 1..=maxc { for r in 1..=(if th { 6 } else { 3 }) { if c != r { v.push(Unit { fam: fam.clone(), idx: *idx, var: *var, cfg, construct: c, run: r, cut: CutMode::None, bound: 1.min(if r > 4 { 0 } else { 1 }), primal: false }); } } }
-            for t in [2usize, 3] { v.push(Unit { fam: fam.clone(), idx: *idx, var: *var, cfg, construct: t, run: t, cut: CutMode::EveryPoll, bound: if t == 2 { 1 } else { if th { 1 } else { 0 } }, primal: false }); }
+            for c in 1..=maxc { for r in 1..=(if th { 6 } else { 3 }) { if c != r { v.push(Unit { fam: fam.clone(), idx: *idx, var: *var, cfg, construct: c, run: r, cut: CutMode::None, bound: 1.min(if r > 4 { 0 } else { 1 }), primal: false, all: false }); } } }
+            for t in [2usize, 3] { v.push(Unit { fam: fam.clone(), idx: *idx, var: *var, cfg, construct: t, run: t, cut: CutMode::EveryPoll, bound: if t == 2 { 1 } else { if th { 1 } else { 0 } }, primal: false, all: false }); }
         }
     }
     v
@@ -748,14 +960,14 @@ fn units_c05(th: bool) -> Vec<Unit> {
     for (fam, idx, var) in instance_list(th) {
         for cfg in cfgs12(1) {
             for (t, b) in if th { vec![(2usize, 2usize), (3, 1)] } else { vec![(2usize, 1usize), (3, 0)] } {
-                v.push(Unit { fam: fam.clone(), idx, var, cfg, construct: t, run: t, cut: CutMode::EveryPoll, bound: b, primal: false });
+                v.push(Unit { fam: fam.clone(), idx, var, cfg, construct: t, run: t, cut: CutMode::EveryPoll, bound: b, primal: false, all: false });
             }
         }
         // quick: the deeper bound on the first instance of each family only
         if !th && v.iter().any(|u: &Unit| u.fam == fam && u.var == var && u.idx != idx) { continue; }
         for cfg in deep.iter() {
             let (t, b) = if th { (2usize, 3usize) } else { (2usize, 2usize) };
-            v.push(Unit { fam: fam.clone(), idx, var, cfg: *cfg, construct: t, run: t, cut: CutMode::EveryPoll, bound: b, primal: false });
+            v.push(Unit { fam: fam.clone(), idx, var, cfg: *cfg, construct: t, run: t, cut: CutMode::EveryPoll, bound: b, primal: false, all: false });
         }
     }
     v
@@ -763,7 +975,7 @@ fn units_c05(th: bool) -> Vec<Unit> {
 fn units_c09(th: bool) -> Vec<Unit> { units_c03(th).into_iter().filter(|u| u.cfg.cache && u.run >= 2).collect() }
 fn units_c14(th: bool) -> Vec<Unit> {
     let mut v = vec![];
-    for (fam, idx, var) in instance_list(th) { for cfg in cfgs12(1) { v.push(Unit { fam: fam.clone(), idx, var, cfg, construct: 2, run: 2, cut: CutMode::None, bound: 1, primal: true }); } }
+    for (fam, idx, var) in instance_list(th) { for cfg in cfgs12(1) { v.push(Unit { fam: fam.clone(), idx, var, cfg, construct: 2, run: 2, cut: CutMode::None, bound: 1, primal: true, all: false }); } }
     v
 }
 
@@ -794,8 +1006,13 @@ pub fn check(prop: &str, tier: &str) -> i32 {
     if prop == "C04" { let mut cut = crate::checks::par1_plans(th, crate::bnb::Mode::Cutoffs, false); for p in cut.iter_mut() { p.limit = Some(p.limit.unwrap_or(u64::MAX).min(if th { 2000 } else { 150 })); } plans.extend(cut); }
     let (a1, s1, c1) = crate::bnb::run_plans(&rep, &[prop], &plans, dl);
     cov["single_worker_part"] = crate::checks::par1_cov(&a1, s1, c1);
-    cov["evaluations"] = json!(c.executions + a1.runs + a1.cut_runs);
-    cov["exhaustive"] = json!(c.complete && c1);
+    // ALL interleavings (explicit-state search) on the smallest non-trivial instances
+    let (acov, aok, aexec, _) = all_part(&rep, prop, CutMode::None, false, false, 14.0, 1200.0);
+    cov["all_interleavings_part"] = acov;
+    let mut aok2 = true; let mut aexec2 = 0;
+    if prop == "C04" { let (acov2, ok2, ex2, _) = all_part(&rep, prop, CutMode::EveryPoll, false, false, 8.0, 900.0); cov["all_interleavings_with_cutoff_part"] = acov2; aok2 = ok2; aexec2 = ex2; }
+    cov["evaluations"] = json!(c.executions + a1.runs + a1.cut_runs + aexec + aexec2);
+    cov["exhaustive"] = json!(c.complete && c1 && aok && aok2);
     rep.finish("model_checking", cov, assumptions())
 }
 fn assumptions() -> Vec<String> {
@@ -833,7 +1050,7 @@ pub fn c15_parallel_part(rep: &Reporter) -> (Value, bool) {
     let mut units = vec![];
     for (fam, idx, var) in insts {
         for cfg in [Cfg { dd: DdKind::Pooled, cache: false, nodup: false, width: 1 }, Cfg { dd: DdKind::Pooled, cache: true, nodup: true, width: 1 }, Cfg { dd: DdKind::Pooled, cache: true, nodup: false, width: 2 }, Cfg { dd: DdKind::Fc, cache: true, nodup: true, width: 1 }] {
-            for (t, b) in if th { vec![(1usize, 0usize), (2, 2), (3, 1)] } else { vec![(1usize, 0usize), (2, 1)] } { units.push(Unit { fam: fam.clone(), idx, var, cfg, construct: t, run: t, cut: CutMode::None, bound: b, primal: false }); }
+            for (t, b) in if th { vec![(1usize, 0usize), (2, 2), (3, 1)] } else { vec![(1usize, 0usize), (2, 1)] } { units.push(Unit { fam: fam.clone(), idx, var, cfg, construct: t, run: t, cut: CutMode::None, bound: b, primal: false, all: false }); }
         }
     }
     part(rep, "C15", units, 20.0, 600.0)
@@ -870,9 +1087,45 @@ pub fn scan(args: &[String]) -> i32 {
     let cut = if args[5] == "1" { CutMode::EveryPoll } else { CutMode::None };
     let var = if args.get(6).map_or(false, |s| s == "rub") { Variant { rub: Rub::Exact, ..Variant::BASE } } else { Variant::BASE };
     let insts = interesting(fam, var, n, stride);
-    let units: Vec<Unit> = insts.iter().map(|(f, i, v)| Unit { fam: f.clone(), idx: *i, var: *v, cfg: Cfg { dd: DdKind::Lel, cache: false, nodup: false, width: 1 }, construct: threads, run: threads, cut, bound, primal: false }).collect();
+    let units: Vec<Unit> = insts.iter().map(|(f, i, v)| Unit { fam: f.clone(), idx: *i, var: *v, cfg: Cfg { dd: DdKind::Lel, cache: false, nodup: false, width: 1 }, construct: threads, run: threads, cut, bound, primal: false, all: false }).collect();
     let c = explore_units(&rep, &["C02", "C03", "C04", "C05", "C09", "C14"], &units, 600.0, 200_000);
     println!("units {} executions {} complete {}", units.len(), c.executions, c.complete);
     for v in rep.violations.lock().unwrap().iter() { println!("{} : {} :: unit {} fire_at {} schedule {}", v.sig, v.what, v.replay["unit"]["idx"], v.replay["fire_at"], v.replay["schedule"]); }
     0
+}
+
+/// diagnostic / cross-check command: `mc sched-xcheck <family> <n instances> <stride> <threads> <cut 0|1> <dd lel|fc|pooled> <cache 0|1> <nodup 0|1> [bound] [variant: base|rub|dom|flat]`
+/// explores each unit three times -- stateless with a pre-emption bound, explicit-state (all interleavings) in two
+/// different search orders -- and compares: same number of distinct states in both orders, same set of outcomes, and
+/// every outcome of the bounded search is an outcome of the unbounded one.
+pub fn xcheck(args: &[String]) -> i32 {
+    let fam = &args[0];
+    let n: usize = args[1].parse().unwrap();
+    let stride: u64 = args[2].parse().unwrap();
+    let threads: usize = args[3].parse().unwrap();
+    let cut = if args[4] == "1" { CutMode::EveryPoll } else { CutMode::None };
+    let dd = match args[5].as_str() { "fc" => DdKind::Fc, "pooled" => DdKind::Pooled, _ => DdKind::Lel };
+    let cfg = Cfg { dd, cache: args[6] == "1", nodup: args[7] == "1", width: 1 };
+    let bound: usize = args.get(8).and_then(|s| s.parse().ok()).unwrap_or(2);
+    let var = match args.get(9).map(|s| s.as_str()) { Some("rub") => Variant { rub: Rub::Exact, ..Variant::BASE }, Some("dom") => Variant { dom: Dom::Exact, ..Variant::BASE }, Some("flat") => Variant { flat: true, ..Variant::BASE }, _ => Variant::BASE };
+    pin_to_core(2);
+    ddo::verif::set_hook(Some(Arc::new(hook)));
+    let dl = Instant::now() + Duration::from_secs(std::env::var("XCHECK_S").ok().and_then(|s| s.parse().ok()).unwrap_or(120));
+    let mut bad = 0;
+    for (f, i, v) in interesting(fam, var, n, stride) {
+        let u = Unit { fam: f.clone(), idx: i, var: v, cfg, construct: threads, run: threads, cut, bound, primal: false, all: true };
+        let t0 = Instant::now();
+        let a = explore_unit_all(&u, u64::MAX, dl, false);
+        let t1 = t0.elapsed();
+        let dl = Instant::now() + Duration::from_secs(std::env::var("XCHECK_S").ok().and_then(|s| s.parse().ok()).unwrap_or(120));
+        let b = explore_unit_all(&u, u64::MAX, dl, true);
+        let dl = Instant::now() + Duration::from_secs(std::env::var("XCHECK_S").ok().and_then(|s| s.parse().ok()).unwrap_or(120));
+        let t2 = Instant::now();
+        let c = explore_unit(&Unit { all: false, ..u.clone() }, u64::MAX, dl);
+        println!("{}#{} {:?} threads {} cut {:?}: ALL fwd states {} transitions {} executions {} outcomes {} depth {} ({:?}) | ALL rev states {} transitions {} executions {} outcomes {} | bound {} executions {} outcomes {} ({:?}) | violations {} / {} / {}",
+            f, i, cfg, threads, cut, a.states, a.transitions, a.executions, a.distinct_outcomes, a.max_depth, t1, b.states, b.transitions, b.executions, b.distinct_outcomes, bound, c.executions, c.distinct_outcomes, t2.elapsed(), a.violations.len(), b.violations.len(), c.violations.len());
+        if a.states != b.states || a.distinct_outcomes != b.distinct_outcomes || c.distinct_outcomes > a.distinct_outcomes { println!("  MISMATCH"); bad += 1; }
+        for v in a.violations.iter().chain(c.violations.iter()).take(4) { println!("   {} {} {}", v.0, v.1, v.2); }
+    }
+    if bad > 0 { 2 } else { 0 }
 }
